@@ -23,7 +23,7 @@ PLAN = {'quick': {'gen': 8}, 'thorough': {'gen': 16, 'tests': 1, 'docs': 1}}
 REQUIRED_BUCKETS = ['range:identical', 'range:nested', 'range:overlap', 'range:disjoint', 'grid:uniform', 'grid:nonuniform',
                     'op:add', 'op:subtract', 'op:multiply', 'op:divide', 'op:power', 'sampling:min', 'sampling:left',
                     'sampling:right', 'sampling:float', 'fill:0', 'fill:nonzero', 'fill:pair', 'unit:nm', 'unit:um', 'unit:m',
-                    'unit:angstrom', 'unit:mixed', 'scalar', 'vector', 'method:quadratic', 'method:cubic', 'blackbody', 'density', 'update-sequence', 'values:integer', 'scalar:numpy-type', 'scalar:integer-values', 'same-spectrum:two-units', 'grid:decimal-step', 'grid:huge']
+                    'unit:angstrom', 'unit:mixed', 'scalar', 'vector', 'method:quadratic', 'method:cubic', 'blackbody', 'density', 'update-sequence', 'values:integer', 'scalar:numpy-type', 'scalar:integer-values', 'scalar:narrow-float-values', 'same-spectrum:two-units', 'grid:decimal-step', 'grid:huge']
 REQUIRED_ANCHORS = ['probe:Spectrum.add', 'probe:Spectrum.subtract', 'probe:Spectrum.multiply', 'probe:Spectrum.divide', 'probe:Spectrum.power', 'anchor:Spectrum._ufunc', 'anchor:_interp_common', 'anchor:_sampling', 'anchor:Spectrum.sample']
 REQUIRED_ORACLES = ['grid', 'value=op(interp)', 'new-object', 'commutative', 'unit-agnostic', 'operands-physically-unchanged',
                     'scalar-elementwise']
@@ -79,10 +79,11 @@ def ufunc_oracle(ctx, args, kwargs, result, exc, pre):
         with np.errstate(all='ignore'):
             try:
                 # values are real numbers whatever integer type a hand-typed table arrives in
-                ref = uf(sv.astype(float) if sv.dtype.kind in 'biu' else sv, other)
+                narrow_ = sv.dtype.kind in 'biu' or (sv.dtype.kind == 'f' and sv.dtype.itemsize < 8)
+                ref = uf(sv.astype(float) if narrow_ else sv, other)
             except Exception:
                 return
-        if sv.dtype.kind in 'biu':
+        if narrow_:
             okv = np.shape(result.value) == np.shape(ref) and np.allclose(np.asarray(result.value, float), ref, rtol=1e-14, atol=0, equal_nan=True)
         else:
             okv = np.array_equal(result.value, ref, equal_nan=True)
@@ -506,6 +507,18 @@ def workload(ctx, lentil):
             other = [np.int64(int(rng.integers(1, 4))), np.float32(1.5), np.float64(other), np.array(float(other)), np.uint8(3),
                      np.int32(2)][(i // 3) % 6]
             ctx.bucket('scalar:numpy-type')
+        if i % 7 == 3:
+            # values held in single / half precision, large or small enough that the operation leaves the narrow type's range or
+            # loses its digits: the operation is on the numbers, in double precision (as the Spectrum-Spectrum path does)
+            dt = [np.float32, np.float16][(i // 7) % 2]
+            va = (rng.uniform(0.5, 1.0, size=na) * (3e4 if dt is np.float16 else 1e30)).astype(dt)
+            A = in_unit(R, wa, va, unit)
+            other = [2.0, 1e10, 7, va.astype(float)][int(rng.integers(0, 4))] if dt is np.float32 else [2.0, 100.0, 3, va.astype(float)][int(rng.integers(0, 4))]
+            opn = ['multiply', 'add', 'power', 'multiply', 'divide'][int(rng.integers(0, 5))] if not isinstance(other, np.ndarray) else ['add', 'multiply'][i % 2]
+            if opn == 'power':
+                other = 2
+            kind = 2 if isinstance(other, np.ndarray) else 0
+            ctx.bucket('scalar:narrow-float-values')
         if i % 7 == 5:
             # integer-typed value tables (hand-typed transmissions, 8-bit data): the operation is on the numbers they hold
             dt = [np.int64, np.uint8, np.int8, np.int32][(i // 7) % 4]
@@ -571,14 +584,15 @@ def workload(ctx, lentil):
         # scalars on the left: 2 + s, sum([s, s]) - addition is commutative
         try:
             s0 = R.Spectrum(w.copy(), v.copy())
-            cands = [lambda: 2 + s0, lambda: np.float64(1.5) + s0, lambda: sum([s0, s0]), lambda: 2 * s0]
-            wants = [v + 2, v + 1.5, 2 * v, 2 * v]
-            q = i % 4
+            cands = [lambda: 2 + s0, lambda: np.float64(1.5) + s0, lambda: sum([s0, s0]), lambda: 2 * s0,
+                     lambda: 2 - s0, lambda: 1 / s0, lambda: 2 ** s0, lambda: np.float64(3) / s0, lambda: np.ones(len(v)) - s0]
+            wants = [v + 2, v + 1.5, 2 * v, 2 * v, 2 - v, 1 / v, 2 ** v, 3 / v, 1 - v]
+            q = i % 9
             rs = cands[q]()
             ctx.check(np.allclose(np.asarray(rs.value, float), wants[q], rtol=1e-12), 'commutative', 'commutative|scalar-on-the-left',
                       'scalar (op) spectrum differs from spectrum (op) scalar', {'form': q})
         except Exception as e:
-            ctx.check(False, 'commutative', f'commutative|scalar-on-the-left|raises={type(e).__name__}', str(e), {'form': i % 4})
+            ctx.check(False, 'commutative', f'commutative|scalar-on-the-left|raises={type(e).__name__}', str(e), {'form': i % 9})
     # ---- Blackbody operands ------------------------------------------------------------------------------
     for i in range(max(6, n // 10)):
         unit = units[int(rng.integers(0, 4))]
